@@ -143,4 +143,62 @@ MUTANTS = [
         sorted.sort();
 
         // Separate import nodes from other nodes keeping topological order"""),
+
+    # ---------------- C14
+    dict(id="c14-eof-span-byte-arith", prop="C14", expect="R14.3|span|wac_parser::lexer::Lexer::span", file="crates/wac-parser/src/lexer.rs",
+         old="""            while !source.is_char_boundary(span.start) {
+                span.start -= 1;
+            }
+            span.end = span.start
+                + source[span.start..]
+                    .chars()
+                    .next()
+                    .map_or(0, |c| c.len_utf8());""",
+         new="""            let _ = source;
+            span.end = span.start + 1;"""),
+    dict(id="c14-access-span-plus-one", prop="C14", expect="R14.3|span|wac_parser::<ast::expr::AccessExpr", file="crates/wac-parser/src/ast/expr.rs",
+         old="""                id.span.offset() - start.offset() + id.span.len(),
+            ),
+            id,""",
+         new="""                id.span.offset() - start.offset() + id.span.len() + 1,
+            ),
+            id,"""),
+    dict(id="c14-heap-type-unwrap", prop="C14", expect="R14.2|crates/wac-types/src/core.rs|unwrap", file="crates/wac-types/src/core.rs",
+         old="""            wasmparser::HeapType::Concrete(index) => match index.as_module_index() {
+                Some(index) => Self::Concrete(index),
+                // Types that have been validated as part of a component refer
+                // to concrete types by a canonical id rather than a module index
+                None => anyhow::bail!("concrete heap type `{index}` is not supported"),
+            },""",
+         new="""            wasmparser::HeapType::Concrete(index) => {
+                Self::Concrete(index.as_module_index().unwrap())
+            }"""),
+    dict(id="c14-func-exact-todo", prop="C14", expect="R14.1|wac_types::package::TypeConverter::entity_type|todo!", file="crates/wac-types/src/package.rs",
+         old="""                bail!("exact function types are not yet supported")""",
+         new="""                todo!("wasmparser::types::EntityType::FuncExact")"""),
+    dict(id="c14-new-unreachable-in-resolver", prop="C14", expect="R14.1|wac_parser::resolution::", file="crates/wac-parser/src/resolution.rs",
+         old="""        if let Some(missing) = include
+            .with
+            .iter()
+            .find(|item| replacements.contains_key(item.from.string))
+        {""",
+         new="""        if replacements.len() > include.with.len() {
+            unreachable!("more replacements than items");
+        }
+        if let Some(missing) = include
+            .with
+            .iter()
+            .find(|item| replacements.contains_key(item.from.string))
+        {"""),
+    dict(id="c14-new-recursion", prop="C14", expect="R14.4|scc:", file="crates/wac-parser/src/ast/printer.rs",
+         old="""    /// Prints the given new expression.
+    pub fn new_expr(&mut self, expr: &NewExpr) -> std::fmt::Result {""",
+         new="""    /// Prints the given new expression.
+    pub fn new_expr(&mut self, expr: &NewExpr) -> std::fmt::Result {
+        let _ = expr;
+        Ok(())
+    }
+
+    /// Prints the given new expression.
+    pub fn new_expr_old(&mut self, expr: &NewExpr) -> std::fmt::Result {""", control=True),
 ]
